@@ -132,6 +132,15 @@ class SurveyScenario(BaseScenario):
         if px_uid is None or not linked:
             del rx
             return
+        loops = getattr(self, "_loops_expected", {}).get((str(ws.h5file), rx_uid, px_uid))
+        if loops is not None and where.split(":")[0] in ("final", "reopen", "reopen_same"):
+            # large-loop copies: what the copy referred to when it was made is what a later reader finds
+            sim.oracle("large_loop_copy_stored")
+            now = self.loops(ws, {"rx": rx_uid, "px": px_uid})
+            got = sorted([list(k), sorted(map(list, v))] for k, v in now["by_receiver"].items())
+            if got != sorted(loops):
+                raise Violation("C20", "copy_loop_mismatch", f"{where}: after re-opening the copied receivers refer to other loops than when the copy was made "
+                                f"({compare._short(got, 120)} vs {compare._short(sorted(loops), 120)})", {**discr, "what": "stored_loops"})
         px = self.get(ws, px_uid)
         live_px = snapshot.canon(px.metadata)
         if not compare.same(_strip(live_rx, True), _strip(live_px, True)):
@@ -200,6 +209,7 @@ class SurveyScenario(BaseScenario):
         n_mut = n_fault = 0
         last_mut = False
         st = {"linked": False, "expect": {}, "pairs": [], "slots": {}}
+        self._loops_expected = {}
         with sim.running():
             try:
                 path = sim.path("s.geoh5")
@@ -422,8 +432,9 @@ class SurveyScenario(BaseScenario):
         kw = {"parent": dst_ws}
         n_keep = N_VERT
         if masked:
-            if family == "large" and r.random() < 0.6:
-                mask = np.array([i < ent.n_vertices // 2 for i in range(ent.n_vertices)])     # receivers of the first loop only
+            if family == "large" and r.random() < 0.7:
+                first = r.random() < 0.5      # receivers of the first loop only / of the second loop only (its id is then renumbered)
+                mask = np.array([(i < ent.n_vertices // 2) == first for i in range(ent.n_vertices)])
             else:
                 mask = np.array([i % 2 == 0 for i in range(ent.n_vertices)])
             n_keep = int(mask.sum())
@@ -490,6 +501,7 @@ class SurveyScenario(BaseScenario):
                                     {**discr, "what": "loop_set"})
                 if masked:
                     sim.probe("copy_masked_large_loop")
+            self.__dict__.setdefault("_loops_expected", {})[(str(dst_ws.h5file), new_pr["rx"], new_pr["px"])] = [[list(k), sorted(map(list, v))] for k, v in after["by_receiver"].items()]
         st["pairs"].append(new_pr)
         return "ok"
 
